@@ -467,17 +467,22 @@ def t_normalize(it):
     """C05: legacy 3-argument strategies are adapted faithfully; other shapes are rejected with TypeError."""
     install(it)
     key = f"{M}:_normalize_strategy"
-    SHAPES = {
-        "ctx": [("POSITIONAL_OR_KEYWORD", False)],
-        "legacy": [("POSITIONAL_OR_KEYWORD", False)] * 3,
-        "legacy-posonly": [("POSITIONAL_ONLY", False)] * 3,
-        "ctx+default": [("POSITIONAL_OR_KEYWORD", False), ("POSITIONAL_OR_KEYWORD", True)],
-        "two": [("POSITIONAL_OR_KEYWORD", False)] * 2,
-        "kwonly-required": [("POSITIONAL_OR_KEYWORD", False), ("KEYWORD_ONLY", False)],
-        "legacy+kwonly-default": [("POSITIONAL_OR_KEYWORD", False)] * 3 + [("KEYWORD_ONLY", True)],
-        "no-signature": None,
-        "varargs": [("VAR_POSITIONAL", False)],
-    }
+    # every signature shape: r required + o defaulted positional parameters (positional-only or not), an optional *args, and no /
+    # a defaulted / a required keyword-only parameter; the documented rule looks at the REQUIRED positional ones only:
+    # one -> context-style (returned unchanged, whatever it defaults), three -> legacy (attempt, klass, prev_sleep_s), else TypeError
+    SHAPES = {"no-signature": None}
+    EXPECT = {}
+    for r_ in range(0, 5):
+        for o_ in range(0, 4):
+            for kind in ("POSITIONAL_OR_KEYWORD", "POSITIONAL_ONLY"):
+                for va in (False, True):
+                    for kw in ("none", "default", "required"):
+                        nm = f"req{r_}+opt{o_}/{kind[11:].lower() or 'pos'}{'/varargs' if va else ''}/kwonly-{kw}"
+                        params = [(kind, False)] * r_ + [(kind, True)] * o_ + ([("VAR_POSITIONAL", False)] if va else [])
+                        if kw != "none":
+                            params.append(("KEYWORD_ONLY", kw == "default"))
+                        SHAPES[nm] = params
+                        EXPECT[nm] = None if kw == "required" else ("ctx" if r_ == 1 else ("legacy" if r_ == 3 else None))
     names = list(SHAPES)
 
     def signature(it_, args, kwargs, node):
@@ -507,7 +512,7 @@ def t_normalize(it):
         p.ghost["shape"] = shape
         strat = EnvFn("user_strategy")
         r = call_catch(it, FuncV(it.tree.func(key)), [strat])
-        ok_shapes = {"ctx": "ctx", "ctx+default": "ctx", "legacy": "legacy", "legacy-posonly": "legacy", "legacy+kwonly-default": "legacy"}
+        ok_shapes = {k: v for k, v in EXPECT.items() if v is not None}
         if r[0] == "exc":
             p.oblige(f"{key}/raises/TypeError-only-for-unsupported-shapes",
                      z3.And(it.lattice.isinstance_cond(r[1].cls_t, TypeError), z3.BoolVal(shape not in ok_shapes)), prop="C05")
